@@ -99,6 +99,10 @@ inductive Tok (V : Type) where
   | nat (n : Nat)
   | val (v : V)
   | str (s : String)
+  /-- first occurrence of a tracked heap object: boost's object id (numbered among the pointer objects) -/
+  | ptr (id : Nat)
+  /-- later occurrence of the same object: a back-reference to its id -/
+  | back (id : Nat)
   deriving Repr, DecidableEq
 
 structure Codec (V α : Type) where
@@ -338,6 +342,83 @@ def SparseStorage.packed {V} (rows : List (List (Nat × V))) (minor : Nat) : Spa
   let offs := packOffsets (rows.map List.length) 0
   { indices := rows.flatten.map (·.1), values := rows.flatten.map (·.2),
     majorBegin := offs, majorEnd := offs.drop 1, minor := minor, implMinor := minor }
+
+/-! ### object sharing: one archive, several objects, pointer identity
+
+`Data<T>` holds its batches through `boost::shared_ptr`; copies of a `Data` are shallow. boost.serialization
+tracks the address of every object saved through a pointer: the first occurrence is written as
+`ptr id` followed by the object, every later occurrence of the SAME address as `back id`. On loading, `ptr id`
+allocates and decodes a new object, `back id` resolves to the object loaded under that id — so the restored
+pointers share exactly where the original ones did. Model: the heap is `deref : Nat → B` (address ↦ batch),
+a container is a list of addresses, `seen` is the list of addresses already written (position = id). -/
+
+/-- position of `a` in `l` (`l.length` if absent) -/
+def indexOf (a : Nat) : List Nat → Nat
+  | [] => 0
+  | b :: t => if b = a then 0 else indexOf a t + 1
+
+/-- the addresses written so far after a further sequence of pointers has been written -/
+def seenAfter : List Nat → List Nat → List Nat
+  | [], s => s
+  | a :: r, s => seenAfter r (if a ∈ s then s else s ++ [a])
+
+/-- write a sequence of pointers -/
+def writePtrs {V B} (c : Codec V B) (deref : Nat → B) : List Nat → List Nat → List (Tok V)
+  | [], _ => []
+  | a :: r, s =>
+    if a ∈ s then .back (indexOf a s) :: writePtrs c deref r s
+    else .ptr s.length :: (c.enc (deref a) ++ writePtrs c deref r (s ++ [a]))
+
+/-- read `n` pointers; `ld` = objects loaded so far (position = id). Result: the ids the pointers
+resolve to, the objects loaded afterwards, the remaining tokens -/
+def readPtrs {V B} (c : Codec V B) : Nat → List B → List (Tok V) → Option (List Nat × List B × List (Tok V))
+  | 0, ld, ts => some ([], ld, ts)
+  | n+1, ld, .back i :: ts =>
+    if i < ld.length then
+      match readPtrs c n ld ts with
+      | some (ids, ld', r) => some (i :: ids, ld', r)
+      | none => none
+    else none
+  | n+1, ld, .ptr i :: ts =>
+    if i = ld.length then
+      match c.dec ts with
+      | some (b, r) =>
+        (match readPtrs c n (ld ++ [b]) r with
+         | some (ids, ld', r') => some (i :: ids, ld', r')
+         | none => none)
+      | none => none
+    else none
+  | _+1, _, _ => none
+
+/-- several containers in one archive (each: `count`, item version 1, the batch pointers, a trailer —
+for `Data` the `Shape`): `LabeledData(x, x)`, a data set and its copy, two labelled sets sharing inputs -/
+def writeConts {V B T} (c : Codec V B) (ct : Codec V T) (deref : Nat → B) : List (List Nat × T) → List Nat → List (Tok V)
+  | [], _ => []
+  | (refs, t) :: more, s =>
+    .nat refs.length :: .nat 1 :: (writePtrs c deref refs s ++ (ct.enc t ++ writeConts c ct deref more (seenAfter refs s)))
+
+def readConts {V B T} (c : Codec V B) (ct : Codec V T) : Nat → List B → List (Tok V) →
+    Option (List (List Nat × T) × List B × List (Tok V))
+  | 0, ld, ts => some ([], ld, ts)
+  | k+1, ld, .nat n :: .nat _ :: ts =>
+    match readPtrs c n ld ts with
+    | some (ids, ld', r) =>
+      (match ct.dec r with
+       | some (t, r') =>
+         (match readConts c ct k ld' r' with
+          | some (cs, ld'', r'') => some ((ids, t) :: cs, ld'', r'')
+          | none => none)
+       | none => none)
+    | none => none
+  | _+1, _, _ => none
+
+/-- what `readConts` must return: every container with its pointers replaced by ids, and the final `seen` -/
+def specConts {T} : List (List Nat × T) → List Nat → List (List Nat × T) × List Nat
+  | [], s => ([], s)
+  | (refs, t) :: more, s =>
+    let s' := seenAfter refs s
+    let (cs, fin) := specConts more s'
+    ((refs.map (indexOf · s'), t) :: cs, fin)
 
 /-- write to an archive, read the whole archive back -/
 def roundTrip {V α : Type} (c : Codec V α) (a : α) : Option α :=
